@@ -91,6 +91,9 @@ def obligations(ctx):
     # values, not only extents: the product pipelines with their scratch buffers 8 / 24 / 56 bytes past a 64-byte boundary return the same exact polynomial
     # (same analysis as C01 / C02), N = 16 so that several reim4 blocks are processed
     from vf.props import c01
+    # empty input (a_size = 0, no row to multiply): the output must be the zero polynomial whatever the scratch holds (no output term may mention scratch contents)
+    for (path, nn, avx, ncols) in ((3, 8, 1, 2), (3, 16, 1, 3), (2, 8, 0, 3), (2, 16, 1, 2)):
+        obs.append(c01.prod_ob(t, path, nn, avx, 2, 0, nrows=2, ncols=ncols, tag="scratch-contents/"))
     for (path, toffs, avx) in ((2, 1, 1), (2, 3, 0), (2, 7, 1), (3, 1, 0), (3, 7, 1), (0, 1, 1), (1, 3, 1)):
         if path >= 2:
             obs.append(c01.prod_ob(t, path, 16, avx, 2, 2, nrows=2, ncols=2, tag="scratch-alignment/", toffs=toffs))
